@@ -40,6 +40,40 @@ def run(ctx):
             return
     gsa = [n for n in ix.nodes if is_get_signal_at(n)]
     ctx.floor("R03.1", "get_signal_at calls in get_witness", len(gsa), 3)
+    # where the witness fields are filled: directly (`wit.<field>.push(..)`) or through locals that end up in a `Witness { .. }` literal
+    sink_locals = {}
+    sink_exprs = {}
+    for n_ in ix.nodes:
+        if n_.get("k") == "struct" and n_["path"].endswith("::Witness"):
+            for fl_ in n_["fields"]:
+                sink_exprs[fl_["name"]] = fl_["e"]
+                ids = set()
+                todo_ = [fl_["e"]]
+                for _ in range(12):
+                    if not todo_:
+                        break
+                    e_ = strip_try(todo_.pop())
+                    e_ = norm.tail_value(e_)
+                    if e_.get("k") == "local":
+                        ids.add(canon(e_["id"]))
+                        init_ = simple_let_init(defs, e_["id"])
+                        if init_ is not None:
+                            todo_.append(init_)
+                    elif e_.get("k") == "blockexpr":
+                        todo_.append(norm.result_value(e_))
+                    elif e_.get("k") == "ctor" and callee(e_).endswith(("Result::Ok", "Option::Some")) and e_.get("args"):
+                        todo_.append(e_["args"][0])
+                sink_locals[fl_["name"]] = ids
+
+    def fills(x, field, names=("push",)):
+        """x is a call of one of `names` on the witness field `field` (or on a local that becomes that field)"""
+        if not (x.get("k") == "mcall" and x["name"] in names):
+            return False
+        fp_ = field_path(x["recv"])
+        if fp_ and fp_[2] == [field]:
+            return True
+        lid_ = local_id(x["recv"])
+        return lid_ is not None and canon(lid_) in sink_locals.get(field, set())
     seen = {"bad": 0, "state": 0, "input": 0}
 
     def smt_call_of(sym_call):
@@ -77,7 +111,7 @@ def run(ctx):
             ctx.inst("R03.1", "get_witness:bad-states", ok, n["sp"], "bad states must be evaluated as get_signal_at(bad, k_max) for every element of bad_states (found `%s` over `%s`)" % (show(n), show(it["src"])), sample=show(n))
             # R03.2
             sv = smt_call_of(n)
-            pushes = [x for x in walk(it["body"]) if mname(x, "push") and field_path(x["recv"]) and field_path(x["recv"])[2] == ["failed_safety"]]
+            pushes = [x for x in walk(it["body"]) if fills(x, "failed_safety")]
             ctx.inst("R03.2", "get_witness:failed_safety:count", len(pushes) == 1, it["node"]["sp"], "expected exactly one failed_safety.push in the bad-state loop, found %d" % len(pushes))
             for pu in pushes:
                 a = peel(pu["args"][0])
@@ -109,7 +143,7 @@ def run(ctx):
             ctx.inst("R03.1", "get_witness:states", ok, n["sp"], "initial state values must be get_signal_at(state.symbol, 0) (found `%s`)" % show(n), sample=show(n))
             # R03.3: unconditional pushes to wit.init and wit.init_names in this loop
             for fld in ("init", "init_names"):
-                pushes = [x for x in walk(it["body"]) if mname(x, "push") and field_path(x["recv"]) and field_path(x["recv"])[2] == [fld]]
+                pushes = [x for x in walk(it["body"]) if fills(x, fld)]
                 okp = it["kind"] == "for" and len(pushes) == 1 and len(ix.regions[id(pushes[0])]) == len(ix.regions[id(it["node"])]) + 1 and not skips
                 ctx.inst("R03.3", "get_witness:%s:push" % fld, okp, it["node"]["sp"], "wit.%s must receive exactly one entry per state, unconditionally (found %d pushes)" % (fld, len(pushes)))
             no_skip = not skips and plain_names in (["iter", "enumerate"], ["iter"])
@@ -119,22 +153,33 @@ def run(ctx):
             ib = elem_binding(pat)
             outer = norm.iter_context(ix, it["node"])
             kb = elem_binding(outer["pat"]) if outer and outer.get("pat") else None
-            ok = ib is not None and is_local(e_arg, ib[1]) and outer is not None and outer["kind"] == "for" and kb and is_local(step, kb[1]) and inclusive_upto(range_of(outer["src"], defs), P["k_max"])
+            ok = ib is not None and is_local(e_arg, ib[1]) and outer is not None and outer["kind"] in ("for", "closure") and kb and is_local(step, kb[1]) and inclusive_upto(range_of(outer["src"], defs), P["k_max"])
             ctx.inst("R03.1", "get_witness:inputs", ok, n["sp"],
                      "input values must be get_signal_at(input, k) for every input and every k in 0..=k_max (found `%s` inside `%s`)" % (show(n), show(outer["src"]) if outer and outer.get("src") else "?"), sample=show(n))
-            # R03.3: the per-step vector is built element-wise from sys.inputs, each element Some(model value), and pushed once per step
+            # R03.3: the per-step vector is built element-wise from sys.inputs, each element Some(model value), and there is one such vector per step
             sv = smt_call_of(n)
             okp = okq = False
+            step_vec = None          # the expression that is the vector of one step
             if outer is not None and outer["kind"] == "for":
-                op = [x for x in walk(outer["body"]) if mname(x, "push") and field_path(x["recv"]) and field_path(x["recv"])[2] == ["inputs"]]
+                op = [x for x in walk(outer["body"]) if fills(x, "inputs")]
                 if len(op) == 1 and len(ix.regions[id(op[0])]) == len(ix.regions[id(outer["node"])]) + 1:
-                    el = norm.elementwise(ix, defs, op[0]["args"][0])
-                    if el is not None and (el["scope"] is it["node"]) and not el.get("pre", ["iter"])[1:] :
-                        okq = ix.precedes(it["node"], op[0]) or contains(op[0], it["node"])
-                        if el["form"] == "loop":
-                            vec = defs.get(local_id(op[0]["args"][0]))
-                            okq = okq and vec is not None and contains(outer["body"], vec[1])      # a fresh vector per step
-                        okp = sv is not None and is_some_of(el["elem"], sv, defs)
+                    step_vec = op[0]["args"][0]
+                    okq = ix.precedes(it["node"], op[0]) or contains(op[0], it["node"])
+            elif outer is not None and outer["kind"] == "closure" and outer["via"] == "map" and "inputs" in sink_exprs:
+                # `inputs: (0..=k_max).map(|k| <vector of step k>).collect()`
+                elo = norm.elementwise(ix, defs, sink_exprs["inputs"])
+                if elo is not None and elo["scope"] is outer["node"] and not elo.get("pre"):
+                    step_vec = norm.result_value(elo["elem"])
+                    okq = True
+            if step_vec is not None:
+                el = norm.elementwise(ix, defs, step_vec)
+                if el is not None and (el["scope"] is it["node"]) and not el.get("pre", ["iter"])[1:]:
+                    if el["form"] == "loop":
+                        vec = defs.get(local_id(step_vec))
+                        okq = okq and vec is not None and contains(outer["body"], vec[1])      # a fresh vector per step
+                    okp = sv is not None and is_some_of(el["elem"], sv, defs)
+                else:
+                    okq = False
             ctx.inst("R03.3", "get_witness:inputs:value-push", okp, it["node"]["sp"], "each input must contribute exactly one Some(model value) per step, unconditionally")
             ctx.inst("R03.3", "get_witness:inputs:step-push", okq, (outer or it)["node"]["sp"], "wit.inputs must receive one fresh vector per step, built from all inputs")
             no_skip = plain_names == ["iter"] and not skips
@@ -144,8 +189,14 @@ def run(ctx):
     for kind in seen:
         ctx.inst("R03.1", "get_witness:%s:present" % kind, seen[kind] == 1, f["span"], "expected exactly one get_signal_at site for %s values, found %d" % (kind, seen[kind]))
     # input names: one per input, in order: a push in a loop over sys.inputs or extend(sys.inputs.iter().map(..))
-    nm = [x for x in ix.nodes if x.get("k") == "mcall" and x["name"] in ("push", "extend", "insert", "resize", "extend_from_slice") and field_path(x["recv"]) and field_path(x["recv"])[2] == ["input_names"]]
+    nm = [x for x in ix.nodes if fills(x, "input_names", ("push", "extend", "insert", "resize", "extend_from_slice"))]
     ok = len(nm) == 1
+    if not nm and "input_names" in sink_exprs:
+        # `input_names: sys.inputs.iter().map(|i| Some(name of i)).collect()`
+        eln = norm.elementwise(ix, defs, sink_exprs["input_names"])
+        okn = eln is not None and eln["form"] == "map" and sys_list(eln["src"], defs, P["sys"], "inputs") and not [x_ for x_ in eln.get("pre", []) if x_ not in ("iter", "copied", "cloned")]
+        ctx.inst("R03.3", "get_witness:input_names", okn, f["span"], "wit.input_names must receive one name per input of sys.inputs, in order, unconditionally")
+        nm = None
     if ok and nm[0]["name"] == "push":
         l = norm.iter_context(ix, nm[0])
         ok = l is not None and l["kind"] == "for" and sys_list(l["src"], defs, P["sys"], "inputs") and [m[0] for m in chain(l["src"])[1] if m[0] not in ("copied", "cloned")] == ["iter"] \
@@ -156,7 +207,8 @@ def run(ctx):
         ok = nms == ["iter", "map"] and sys_list(ms_[0][2]["recv"], defs, P["sys"], "inputs") and len(ix.regions[id(nm[0])]) == 0
     else:
         ok = False
-    ctx.inst("R03.3", "get_witness:input_names", ok, f["span"], "wit.input_names must receive one name per input of sys.inputs, in order, unconditionally")
+    if nm is not None:
+        ctx.inst("R03.3", "get_witness:input_names", ok, f["span"], "wit.input_names must receive one name per input of sys.inputs, in order, unconditionally")
     # callers
     c = ctx.facts.lib("patronus")
     ncall = 0
